@@ -164,7 +164,15 @@ def _value_to_cst(value: Any) -> cst.BaseExpression:  # noqa: C901
     if isinstance(value, bytes):
         return cst.SimpleString(repr(value))
     if isinstance(value, complex):
-        return cst.SimpleString(repr(value))
+        # ``repr`` of a complex number, e.g. ``(1+2j)``, is not a string token; the call form
+        # also keeps signed zeros, infinities and NaN parts.
+        return cst.Call(
+            func=cst.Name("complex"),
+            args=[
+                cst.Arg(value=_make_float_literal(value.real)),
+                cst.Arg(value=_make_float_literal(value.imag)),
+            ],
+        )
     if tu.is_enum(type(value)):
         # EnumClass.MEMBER
         class_name = type(value).__name__
